@@ -655,20 +655,37 @@ fn act_done(a: &Act, id: &Ids, log: &[Line]) -> bool {
     }
 }
 
+/// set once a run or job was seen not to write its closing thread frame: later cases wait only briefly
+static SEEN_MISSING_END: std::sync::atomic::AtomicBool = std::sync::atomic::AtomicBool::new(false);
+
+/// Phase 1: every started run_session task has passed `write_snapshot` (hook count; watchdog => "hang").
+/// Phase 2: the closing thread frames (run_ended right after the snapshot, job_ended) are in the log; a frame
+/// still missing after a generous grace period is left to the oracle (end-count), not reported as a hang.
 async fn wait_done(data: &Path, acts: &[Act], ids: &[Ids], snaps_before: u64, runs_started: u64) -> Option<String> {
     let t0 = Instant::now();
     loop {
-        let log = read_log(data);
-        let all = acts.iter().zip(ids).all(|(a, i)| act_done(a, i, &log));
         let snaps = SNAPS.load(Ordering::SeqCst) - snaps_before;
-        if all && snaps >= runs_started {
-            return None;
+        if snaps >= runs_started {
+            break;
         }
         if t0.elapsed() > WATCHDOG {
-            let pending: Vec<usize> = acts.iter().zip(ids).enumerate().filter(|(_, (a, i))| !act_done(a, i, &log)).map(|(k, _)| k).collect();
-            return Some(format!("activities {pending:?} did not finish within {WATCHDOG:?} (snapshots {snaps}/{runs_started})"));
+            return Some(format!("{} of {runs_started} runs did not reach their snapshot within {WATCHDOG:?}", runs_started - snaps));
         }
-        tokio::time::sleep(Duration::from_millis(4)).await;
+        tokio::time::sleep(Duration::from_millis(3)).await;
+    }
+    let t1 = Instant::now();
+    loop {
+        let log = read_log(data);
+        if acts.iter().zip(ids).all(|(a, i)| act_done(a, i, &log)) {
+            return None;
+        }
+        let has_job = acts.iter().any(|a| matches!(a, Act::Job { .. }));
+        let grace = if SEEN_MISSING_END.load(Ordering::SeqCst) { Duration::from_millis(700) } else if has_job { Duration::from_secs(90) } else { Duration::from_secs(30) };
+        if t1.elapsed() > grace {
+            SEEN_MISSING_END.store(true, Ordering::SeqCst);
+            return None;
+        }
+        tokio::time::sleep(Duration::from_millis(3)).await;
     }
 }
 
@@ -1276,6 +1293,42 @@ fn main() {
         let mut r = Rng::new(a.seed);
         for i in 0..n {
             cases.push(gen_case(&mut r, i));
+        }
+        // single-fault sweep: the connection drops at every event boundary (-1, 0, +1) and at every 9th byte of
+        // the first and of the second response of a base conversation (quick: 2 bases, thorough: 20)
+        let bases = if a.thorough() { 20 } else { 2 };
+        for b in 0..bases {
+            let calls: Vec<Tool> = (0..r.range(1, 2)).map(|_| *r.pick(&CALL_TOOLS)).collect();
+            let ev0 = gen_events(&mut r, &calls, true);
+            let ev1 = gen_events(&mut r, &[], true);
+            for which in 0..2usize {
+                let evs = if which == 0 { &ev0 } else { &ev1 };
+                let (sc, _) = build_stream("x", 0, evs, true, false, &[], None);
+                let total: usize = sc.chunks.iter().map(|c| c.len()).sum();
+                let mut ks: BTreeSet<u64> = BTreeSet::new();
+                let mut off = 0usize;
+                let mut ix = 0u64;
+                for (n, e) in evs.iter().enumerate() {
+                    off += sse_json("x", 0, n, *e, &mut ix).len();
+                    for d in [-1i64, 0, 1] {
+                        let k = off as i64 + d;
+                        if k >= 0 && (k as usize) <= total {
+                            ks.insert(k as u64);
+                        }
+                    }
+                }
+                if a.thorough() {
+                    ks.extend((0..=total as u64).step_by(9));
+                } else {
+                    ks = ks.into_iter().step_by(3).collect();
+                }
+                for k in ks {
+                    let mk = |events: &Vec<Sse>, drop_at: Option<u64>| Req::Stream { events: events.clone(), done: true, partial_tail: false, cuts: if k % 2 == 0 { vec![333, 666] } else { vec![] }, drop_at };
+                    let reqs = if which == 0 { vec![mk(&ev0, Some(k)), mk(&ev1, None)] } else { vec![mk(&ev0, None), mk(&ev1, Some(k))] };
+                    let p = ProviderSpec { stateless: b % 3 == 0, choice: Choice::Auto, closed_port: false, reqs };
+                    cases.push(Case { engine: false, parallel: false, break_summaries: false, acts: vec![Act::Post { input: InputSpec::Prompt, provider: Some(p) }] });
+                }
+            }
         }
     }
     let mut w = CaseWriter::new(&a.out, "Model.RunLifecycle", "check_case", "model_obs", 60);
